@@ -6,13 +6,15 @@ import MiniMoka.Lemmas.UnsyncInv
 namespace MiniMoka
 
 /-- What the cache models need to know about the sketch: a predicate that holds
-initially, is preserved by `ensureCapacity` (for capacities whose table stays below
-2^28 slots) and under which `increment` neither faults nor leaves the predicate.
+initially and after the (single) `ensureCapacity` of the initially empty sketch (for
+capacities whose table stays below 2^28 slots), and under which `increment` neither faults
+nor leaves the predicate; an empty sketch ignores increments.
 Discharged for `Sketch.Good` in `Lemmas/Sketch.lean`. -/
 structure SketchLaws (P : Sketch → Prop) : Prop where
   init : P {}
-  ensure : ∀ s cap, P s → cap ≤ 2 ^ 27 → P (s.ensureCapacity cap)
+  ensure : ∀ cap, cap ≤ 2 ^ 27 → P (({} : Sketch).ensureCapacity cap)
   incr : ∀ s h, P s → ∃ s', s.increment false h = .ok s' ∧ P s'
+  incrDefault : ∀ h, ({} : Sketch).increment false h = .ok {}
 
 /-- Configurations for which the sketch table stays below 2^28 slots (beyond that the
 `count: u32` of `reset` could overflow; documented limit). -/
@@ -252,63 +254,79 @@ theorem invU_of {p : Params} {s s' : UState} (hi : InvU p s) (hst : Struct p s')
 
 theorem sketchIncrement_spec {P : Sketch → Prop} (L : SketchLaws P) {p : Params} (hq : NoQuirks p)
     {s : UState} (hsk : P s.sk) (h : UInt64) :
-    ∃ sk', sketchIncrement p s h = { s with sk := sk' } ∧ P sk' := by
+    ∃ sk', sketchIncrement p s h = { s with sk := sk' } ∧ P sk' ∧ (s.sk = {} → sk' = {}) := by
   have hd5 : p.q.d5 = false := by rw [hq]
   obtain ⟨sk', h1, h2⟩ := L.incr s.sk h hsk
-  exact ⟨sk', by simp [sketchIncrement, hd5, h1], h2⟩
+  refine ⟨sk', by simp [sketchIncrement, hd5, h1], h2, ?_⟩
+  intro h0
+  rw [h0, L.incrDefault h] at h1
+  cases h1; rfl
 
-/-- The invariant together with the sketch predicate. -/
+/-- The invariant together with the sketch predicate; the sketch stays in its initial
+(empty) state until it is enabled. -/
 structure Inv (P : Sketch → Prop) (p : Params) (s : UState) : Prop where
   inv : InvU p s
   sk : P s.sk
+  skOff : s.skOn = false → s.sk = {}
+
+/-- Transport along a step that leaves the sketch and its flag alone. -/
+theorem Inv.of_aux {P : Sketch → Prop} {p : Params} {s s' : UState} (hi : Inv P p s)
+    (hinv : InvU p s') (hsk : s'.sk = s.sk) (hon : s'.skOn = s.skOn) : Inv P p s' :=
+  ⟨hinv, by rw [hsk]; exact hi.sk, fun h => by rw [hsk]; exact hi.skOff (by rw [← hon]; exact h)⟩
 
 theorem get_inv {P : Sketch → Prop} (L : SketchLaws P) {p : Params} (hq : NoQuirks p)
     {s : UState} (hi : Inv P p s) (k : Nat) : Inv P p (get p s k).1 := by
   obtain ⟨h1, _, h3⟩ := maintain_spec hq hi.inv
   have hsk1 : P (maintain p s).sk := by rw [h3.sk]; exact hi.sk
-  obtain ⟨sk', h4, h5⟩ := sketchIncrement_spec L hq hsk1 (p.hash k)
+  obtain ⟨sk', h4, h5, h6⟩ := sketchIncrement_spec L hq hsk1 (p.hash k)
   have hi2 : InvU p { maintain p s with sk := sk' } :=
     invU_of h1 (structP_congr h1.struct rfl rfl rfl rfl rfl) rfl rfl rfl
+  have hoff : ({ maintain p s with sk := sk' } : UState).skOn = false → sk' = {} := by
+    intro h
+    apply h6
+    rw [h3.sk]
+    exact hi.skOff (by rw [← h3.skOn]; exact h)
+  have hI2 : Inv P p { maintain p s with sk := sk' } := ⟨hi2, h5, hoff⟩
   unfold get
   simp only [h4]
   cases hg : AL.get? (maintain p s).map k with
-  | none => exact ⟨hi2, h5⟩
+  | none => exact hI2
   | some e =>
     simp only
     obtain ⟨id, n, hao, hf, _⟩ := hi2.struct.aoLink k e hg (by simp)
     have hrec : ∀ ts, Inv P p (recordHit { maintain p s with sk := sk' } e ts) := by
       intro ts
       rw [recordHit_eq ts hao hf]
-      exact ⟨invU_of hi2 (touchAo_struct hi2.struct id ts) rfl rfl rfl, h5⟩
+      exact hI2.of_aux (invU_of hi2 (touchAo_struct hi2.struct id ts) rfl rfl rfl) rfl rfl
     cases hts : opTs p (maintain p s) with
     | none => exact hrec none
     | some t =>
       simp only
       split
-      · exact ⟨hi2, h5⟩
+      · exact hI2
       · exact hrec _
 
 theorem containsKey_inv {P : Sketch → Prop} {p : Params} (hq : NoQuirks p)
     {s : UState} (hi : Inv P p s) (k : Nat) : Inv P p (containsKey p s k).1 := by
   obtain ⟨h1, _, h3⟩ := maintain_spec hq hi.inv
-  have hsk1 : P (maintain p s).sk := by rw [h3.sk]; exact hi.sk
+  have hI1 : Inv P p (maintain p s) := hi.of_aux h1 h3.sk h3.skOn
   unfold containsKey
   dsimp only
   cases hg : AL.get? (maintain p s).map k with
-  | none => exact ⟨h1, hsk1⟩
+  | none => exact hI1
   | some e =>
     simp only
-    split <;> exact ⟨h1, hsk1⟩
+    split <;> exact hI1
 
 theorem invalidate_inv {P : Sketch → Prop} {p : Params} (hq : NoQuirks p)
     {s : UState} (hi : Inv P p s) (k : Nat) : Inv P p (invalidate p s k) := by
   have hd1 : p.q.d1 = false := by rw [hq]
   obtain ⟨h1, _, h3⟩ := maintain_spec hq hi.inv
-  have hsk1 : P (maintain p s).sk := by rw [h3.sk]; exact hi.sk
+  have hI1 : Inv P p (maintain p s) := hi.of_aux h1 h3.sk h3.skOn
   unfold invalidate
   dsimp only
   cases hg : AL.get? (maintain p s).map k with
-  | none => exact ⟨h1, hsk1⟩
+  | none => exact hI1
   | some e =>
     simp only [hd1, Bool.false_eq_true, if_false]
     obtain ⟨hs', _, _⟩ := takeOut_spec h1.struct hg (by simp)
@@ -316,14 +334,13 @@ theorem invalidate_inv {P : Sketch → Prop} {p : Params} (hq : NoQuirks p)
       have := LoopSpec.step (c := 0) (w := 0) h1.struct hg (LoopSpec.refl hs' 1 (0 + e.weight))
       simpa using this
     have := settle h1 hl
-    refine ⟨this.1, ?_⟩
-    rw [this.2.2.1.sk]; exact hsk1
+    exact hI1.of_aux this.1 this.2.2.1.sk this.2.2.1.skOn
 
 theorem invalidateAll_inv {P : Sketch → Prop} {p : Params} (hq : NoQuirks p)
     {s : UState} (hi : Inv P p s) : Inv P p (invalidateAll p s) := by
   have hd2 : p.q.d2 = false := by rw [hq]
   unfold invalidateAll
-  refine ⟨⟨⟨?_, ?_, ?_, ?_, ?_, ?_, ?_, ?_, ?_, ?_, ?_⟩, ⟨?_, ?_, ?_⟩⟩, hi.sk⟩ <;>
+  refine ⟨⟨⟨?_, ?_, ?_, ?_, ?_, ?_, ?_, ?_, ?_, ?_, ?_⟩, ⟨?_, ?_, ?_⟩⟩, hi.sk, hi.skOff⟩ <;>
     simp [hd2, totalW, hi.inv.struct.noFault]
 
 theorem invalidateKeys_spec {p : Params} (hq : NoQuirks p) (keys : List Nat) :
@@ -353,8 +370,7 @@ theorem invalidateEntriesIf_inv {P : Sketch → Prop} {p : Params} (hq : NoQuirk
   obtain ⟨s1, c, w⟩ := r
   simp only [hd3, Bool.false_eq_true, if_false]
   have := settle hi.inv hl
-  refine ⟨this.1, ?_⟩
-  rw [this.2.2.1.sk]; exact hi.sk
+  exact hi.of_aux this.1 this.2.2.1.sk this.2.2.1.skOn
 
 end Unsync
 end MiniMoka
